@@ -31,9 +31,12 @@ ASSUMPTIONS = [
 
 MODELS = ["ZNCC", "NCC", "PCC", "FSC"]
 # max_shifts per axis length (two tables)
+# max_shifts per axis length, chosen so that rho = (n-1)/2 - M >= 3 px remains for the particle:
+# a wider range would push the displaced density into the box faces (truncated copy = not the
+# statement's 'copy of the template displaced by d')
 MTAB = [
-    {8: 1.0, 9: 1.6, 10: 2.0, 11: 2.0, 12: 2.0, 14: 3.0},
-    {8: 0.8, 9: 1.0, 10: 1.6, 11: 2.6, 12: 2.6, 14: 2.0},
+    {8: 0.5, 9: 1.0, 10: 1.5, 11: 2.0, 12: 2.5, 14: 3.0},
+    {8: 0.4, 9: 0.8, 10: 1.3, 11: 1.6, 12: 2.2, 14: 2.6},
 ]
 FRACS = [(0.0, 0.0, 0.0), (0.8, -0.45, 0.3), (-0.55, 0.7, -0.85), (0.2, 0.95, 0.75)]
 CLASSES = {"smooth": (1.0, [1.0, 0.8, 0.6, 0.5], [1.0, 0.85, 0.95, 0.9]), "broadband": (0.75, [1.0, 0.8, -0.5, 0.6], [1.0, 0.9, 1.1, 0.95])}
@@ -168,7 +171,7 @@ def run_case(case):
         viol.append((sig("non-finite"), f"shift={shift.tolist()}"))
     elif err.max() > tol + 1e-6:
         rel = err.max() / tol
-        bucket = "err<=1.2tol" if rel <= 1.2 + 1e-6 else ("err<=2tol" if rel <= 2 else "err>2tol")
+        bucket = "err<=1.2tol" if rel <= 1.2 + 1e-6 else ("err<=1.6tol" if rel <= 1.6 + 1e-6 else ("err<=2tol" if rel <= 2 else "err>2tol"))
         viol.append((sig("displacement") + "|" + bucket, f"d={d.tolist()} M={M.tolist()} shape={shape}: returned shift {np.round(shift, 3).tolist()} (error {err.max():.3f} px > {tol})"))
     q = np.asarray(res.quat, dtype=np.float64)
     if abs(abs(q[3]) - 1.0) > 1e-6 or np.abs(q[:3]).max() > 1e-6:
